@@ -31,6 +31,9 @@ class Peg:
         self.known = None
         self.last_consumed = None
 
+    def complete_tail_ok(self):
+        return True
+
     def deliverable(self, s, lo, hi):
         return [j for j in range(lo, hi) if lexsim.keeps(s.flt, self.toks[j]['kind'])]
 
@@ -239,6 +242,78 @@ class Peg:
                         raise Fail('recover')
                     return (['none'] if k in ('recover', 'recoverdelayed') else 'dflt'), s2
             raise Fail('recover')
+        # ---- delimited lists (C11): segment by segment ----
+        if k in ('list', 'listb', 'listdef', 'listbdef'):
+            if k in ('list', 'listdef'):
+                lo, hi, item, sep, ab = 0, None, g[1], g[2], g[3]
+            else:
+                lo, hi, item, sep, ab = int(g[1]), (None if g[2] == 'inf' else int(g[2])), g[3], g[4], g[5]
+            opt = k in ('list', 'listb')
+            if hi == 0:
+                return ['list'], s
+            D = self.deliverable(s, s.i, len(self.toks))
+            body = []
+            abort_at = None
+            for j in D:
+                if self.toks[j]['kind'] in ab:
+                    abort_at = j; break
+                body.append(j)
+            # split at separators: segments as lists of token indices, with the index of the delimiter that ends each
+            segs, cur = [], []
+            for j in body:
+                if self.toks[j]['kind'] == sep:
+                    segs.append((cur, j)); cur = []
+                else:
+                    cur.append(j)
+            end_delim = abort_at          # None = end of text
+            if body:
+                segs.append((cur, end_delim))
+                if not cur and len(segs) >= 1 and (len(segs) > 1):
+                    segs.pop()            # one trailing empty segment is dropped
+            vals = []
+            bounds = []
+            prev_delim = None
+            final = St(abort_at if abort_at is not None else len(self.toks), s.flt, False)
+            if not body:
+                final = St(abort_at if abort_at is not None else s.i, s.flt, s.fresh)
+            for n_, (seg, delim) in enumerate(segs):
+                start_i = seg[0] if seg else (delim if delim is not None else len(self.toks))
+                st0 = St(start_i, s.flt, False)
+                ok = False
+                try:
+                    if seg:
+                        v, s1 = self.ev(item, st0)
+                        nxt = self.first(s1)
+                        want = delim
+                        ok = (nxt == want) if want is not None else (nxt is None or nxt == want)
+                        if want is None:
+                            ok = nxt is None
+                        ok = ok and s1.i > seg[-1]
+                except Fail:
+                    ok = False
+                if ok:
+                    vals.append(['some', v] if opt else v)
+                else:
+                    if not self.sink:
+                        raise Fail('list-item')
+                    self.emitted += 1
+                    lo_b = self.toks[prev_delim]['start'][0] if prev_delim is not None else (self.toks[D[0]]['start'][0] if D else 0)
+                    hi_b = self.toks[delim]['end'][0] if delim is not None else (self.toks[-1]['end'][0] if self.toks else 0)
+                    bounds.append((lo_b, hi_b))
+                    if delim is None and not self.complete_tail_ok():
+                        pass
+                    vals.append(['none'] if opt else 'dflt')
+                prev_delim = delim
+                if hi is not None and len(vals) >= hi:
+                    # the upper bound stops the list: later segments stay unconsumed
+                    final = St(delim if delim is not None else len(self.toks), s.flt, False)
+                    break
+            self.list_bounds = getattr(self, 'list_bounds', []) + bounds
+            if len(vals) < lo:
+                if not self.sink:
+                    raise Fail('count')
+                self.emitted += 1
+            return ['list'] + vals, final
         # ---- repetition (C07): greedy single loop ----
         if k in ('repeat', 'repeatcount', 'intersperse', 'interspersecount', 'interspersedef',
                  'repeatuntil', 'repeatcountuntil', 'intersperseuntil', 'interspersecountuntil'):
